@@ -479,13 +479,22 @@ func TestVFC19Read(t *testing.T) {
 		if len(fb) > 20000 {
 			continue
 		}
-		fr0 := NewFramer(io.Discard, bytes.NewReader(append(append([]byte{}, fb...), pingB...)))
-		fr0.SetMaxReadFrameSize(maxRead)
-		if _, err := fr0.ReadFrame(); err != nil {
+		self := func() (ok bool) {
+			defer func() {
+				if recover() != nil {
+					ok = false
+				}
+			}()
+			fr0 := NewFramer(io.Discard, bytes.NewReader(append(append([]byte{}, fb...), pingB...)))
+			fr0.SetMaxReadFrameSize(maxRead)
+			if _, err := fr0.ReadFrame(); err != nil {
+				return false
+			}
+			nf, err := fr0.ReadFrame()
+			return err == nil && nf.Header().Type == FramePing // otherwise it leaves a header block open (or is not accepted): not self-contained
+		}()
+		if !self {
 			continue
-		}
-		if nf, err := fr0.ReadFrame(); err != nil || nf.Header().Type != FramePing {
-			continue // leaves a header block open (or is not accepted): not self-contained
 		}
 		seq = append(seq, vfSeqItem{args[0], fb})
 	}
@@ -502,7 +511,17 @@ func TestVFC19Read(t *testing.T) {
 				fr.SetReuseFrames()
 			}
 			for i, it := range seq {
-				got, err := fr.ReadFrame()
+				var got Frame
+				var err error
+				if pan := func() (p any) {
+					defer func() { p = recover() }()
+					got, err = fr.ReadFrame()
+					return nil
+				}(); pan != nil {
+					res.violate(map[string]any{"check": "C19", "kind": "read_outcome", "frame_type": it.f.T, "reader": "long_lived"},
+						fmt.Sprintf("long-lived Framer (reuse=%v): ReadFrame panicked on frame %d of the sequence, %+v: %v", reuse, i, it.f, pan), nil)
+					break
+				}
 				if err != nil {
 					res.violate(map[string]any{"check": "C19", "kind": "read_outcome", "frame_type": it.f.T, "reader": "long_lived"},
 						fmt.Sprintf("long-lived Framer (reuse=%v): frame %d of the sequence, %+v, accepted by a fresh Framer, fails with %v", reuse, i, it.f, err), nil)
